@@ -777,8 +777,25 @@ pub fn family_circuits(quick: bool) -> Vec<Vec<AOp>> {
     out
 }
 
-fn in_fresh_thread<T: Send + 'static>(f: impl FnOnce() -> T + Send + 'static) -> T {
-    std::thread::spawn(f).join().expect("history thread died")
+/// violations recorded by helper threads that died (a panic of the subject outside every guard, e.g. in
+/// a thread-local constructor or destructor): drained by run()
+static THREAD_DEATHS: Mutex<Vec<String>> = Mutex::new(Vec::new());
+
+fn in_fresh_thread<T: Send + Default + 'static>(f: impl FnOnce() -> T + Send + 'static) -> T {
+    match std::thread::Builder::new().spawn(f) {
+        Ok(h) => match h.join() {
+            Ok(v) => v,
+            Err(e) => {
+                let msg = e.downcast_ref::<&str>().map(|s| s.to_string()).or_else(|| e.downcast_ref::<String>().cloned()).unwrap_or_else(|| "?".into());
+                THREAD_DEATHS.lock().unwrap().push(msg);
+                T::default()
+            }
+        },
+        Err(e) => {
+            THREAD_DEATHS.lock().unwrap().push(format!("could not start a thread: {}", e));
+            T::default()
+        }
+    }
 }
 
 // ======================================================================== (b) schedules
@@ -1717,6 +1734,17 @@ pub fn run(tier: &str, verif_dir: &str) -> Report {
     rep.set("distinct_initialisation_attributions", json!(sstats.attributions.len()));
     rep.set("memo_bfs_states", json!(bfs_states));
     rep.set("memo_bfs_transitions", json!(bfs_trans));
+    {
+        let deaths: Vec<String> = std::mem::take(&mut *THREAD_DEATHS.lock().unwrap());
+        if !deaths.is_empty() {
+            rep.sink.push(viol(
+                "C13/thread-died",
+                format!("{} helper threads making ordinary calls died from a panic that no call site could catch (first: {}): the library failed in per-thread set-up or tear-down, which depends on how many threads used it before", deaths.len(), deaths[0]),
+                json!({"kind": "thread-death"}),
+            ));
+        }
+        rep.set("helper_threads_that_died", json!(deaths.len()));
+    }
     rep.set("api_histories", json!(api_hist.load(Ordering::Relaxed)));
     rep.sample(json!({"memo_history": [ops[17].json(), ops[18].json(), ops[17].json()]}));
     rep.sample(json!({"api_history": [aops[3].json(), aops[13].json()]}));
